@@ -108,6 +108,8 @@ GPG_MASTERS = {
     "no_sub2": "8288ef560ed3795f9df2c0db56193089b285da58",
     "expired": "e8ac80c924116dabb51d4b987cb07d6d2c199c7c",    # expired 2019-03-26; signing subkey 70cfabf1…
 }
+SIGNING_SUBKEYS = {"35830aa342b9fea0178876b02b25647ff0ef59fe", "732d722578f71a9ec967a64bfead922c91eb7351",
+                   "c5a0abe6ec19d0d65f85e2c39be9df5131d924e9", "70cfabf1e2f1dc60ac5c7bca10cd20d3d5bcb6ef"}
 _GPG = {}
 
 
@@ -284,6 +286,7 @@ class Scenario:
 
     # ---- model side
     def model_request(self, op="verify"):
+        params = self.params[0] if isinstance(self.params, list) else self.params
         epoch = datetime.datetime(1970, 1, 1, tzinfo=datetime.timezone.utc)
         delta = self.now - epoch
         now_us = (delta.days * 86400 + delta.seconds) * 1000000 + delta.microseconds
@@ -294,7 +297,7 @@ class Scenario:
             "insp": [[cmd, out] for cmd, out in self.insp],
             "layout": file_for_model(self.layout),
             "keys": [[kid, tagged(k)] for kid, k in self.keys.items()],
-            "dir": "links", "params": None if self.params is None else [[k, v if isinstance(v, str) else None] for k, v in self.params.items()],
+            "dir": "links", "params": None if params is None else [[k, v if isinstance(v, str) else None] for k, v in params.items()],
             "fuel": 8, "step_name": "",
         }
 
